@@ -164,7 +164,19 @@ def users_stubs(mod, recs, state):
     def PyList_Append(I, st, w, c, l, x):
         return z3.BitVecVal(0, 32)
 
-    return {"@PyList_New": PyList_New, "@setutent": cir.nop, "@endutent": cir.nop, "@getutent": getutent, "@PyUnicode_DecodeFSDefault": decode,
+    def strncmp(I, st, w, c, a, b, n):
+        lit = cir.const_cstr(I, st, b)
+        nn = z3.simplify(n)
+        if lit is None or not z3.is_bv_value(nn):
+            raise NotImplementedError("strncmp with a non-constant string or length")
+        want = (list(lit.encode("latin-1")) + [0])[:nn.as_long()]      # compares at most n bytes, stops after a NUL
+        o = st.objs[a.obj]
+        I.oblige(st, a.off + len(want) <= o.size, "strncmp: load out of bounds")
+        eq = z3.And(*[I.byte_at(st, a.obj, a.off + i) == want[i] for i in range(len(want))]) if want else z3.BoolVal(True)
+        st.log.append(("strcmp", a.obj, a.off, lit))
+        return z3.If(eq, z3.BitVecVal(0, 32), z3.BitVecVal(1, 32))
+
+    return {"@strncmp": strncmp, "@strlen": lambda I, st, w, c, p_: z3.BitVecVal(len(cir.const_cstr(I, st, p_)), 64), "@PyList_New": PyList_New, "@setutent": cir.nop, "@endutent": cir.nop, "@getutent": getutent, "@PyUnicode_DecodeFSDefault": decode,
             "@PyUnicode_DecodeFSDefaultAndSize": decode_n, "@strnlen": strnlen, "@strcmp": strcmp, "@Py_BuildValue": Py_BuildValue, "@PyList_Append": PyList_Append,
             "@_Py_Dealloc": cir.nop, "@Py_XDECREF": cir.nop, "@Py_DecRef": cir.nop, "@Py_IncRef": cir.nop}
 
